@@ -9,6 +9,7 @@ type Variant struct {
 	Benign bool   // true: behaviour-preserving edit that must stay silent
 	Expect string // breaking: substring of the obligation key that must report (e.g. "C04.R1")
 	Why    string // what the edit does
+	Patch  string // alternative to File/Old/New: path of a unified diff (seeded change)
 }
 
 // Variants maps property id to its edit table.
